@@ -8,6 +8,12 @@ twice in one scope; Go accepts names that differ in case only).
 
 spec = {name, kind, collide, locals: [{recv,name,id}], imports: [{alias, tag, pkg, file, tgts: [{recv,name,id}]}],
         aliases: [{key, ref}], words: [..]}
+Every package may also carry "decoys" (spec["decoys"] for the magefile package, import["decoys"] per imported
+package): declarations that are NOT runnable names but are spelled like one - exported functions and namespace
+methods with a signature mage cannot call, unexported functions, methods of non-namespace types, methods of an
+unexported namespace type, functions in a _test file or in a file excluded by a build constraint.  They are
+rendered, never part of the abstract package given to the model or the oracle.
+A history (generate()[i] is a list of specs) is one project directory + one cache going through several states.
 imports are import SPECS in source order (file 0 = magefile.go, file 1 = magefile2.go); several specs may
 name the same package (same pkg, same tgts): one package under several aliases, as root + alias, twice."""
 
@@ -96,8 +102,40 @@ class Proj:
             return False
         return all(not (t["recv"] == "" and t["name"] == recv) and not (t["recv"] == recv and t["name"] == name) for t in tgts)
 
+    def _scope(self, tgts):
+        """the targets and in-scope decoys declared next to tgts (one Go package)"""
+        if tgts is self.spec["locals"]:
+            dec = self.spec.setdefault("decoys", [])
+        else:
+            dec = next(i for i in self.spec["imports"] if i["tgts"] is tgts).setdefault("decoys", [])
+        return tgts + [{"recv": x["recv"], "name": x["name"]} for x in dec if x["kind"] not in ("test_file", "tagged_out")] + \
+            [{"recv": "", "name": x["recv"]} for x in dec if x["recv"]]
+
+    def decoy(self, where, kind, recv, name):
+        """where: None = the magefile package, else an import dict"""
+        if where is not None:
+            where = next(i for i in self.spec["imports"] if i["tgts"] is where["tgts"])
+        tgts = self.spec["locals"] if where is None else where["tgts"]
+        dec = self.spec.setdefault("decoys", []) if where is None else where.setdefault("decoys", [])
+        if kind == "unexported" and not name[:1].islower():
+            return False
+        if kind in ("test_file", "tagged_out"):
+            if not name or any(x["kind"] == kind and x["name"] == name for x in dec):
+                return False
+        else:
+            scope = self._scope(tgts)
+            if not name or name in RESERVED or recv in RESERVED:
+                return False
+            if recv == "":
+                if any((t["recv"] == "" and t["name"] == name) or t["recv"] == name for t in scope):
+                    return False
+            elif any((t["recv"] == "" and t["name"] == recv) or (t["recv"] == recv and t["name"] == name) for t in scope):
+                return False
+        dec.append({"kind": kind, "recv": recv, "name": name})
+        return True
+
     def _add(self, tgts, recv, name):
-        if not self._legal(tgts, recv, name):
+        if not self._legal(self._scope(tgts), recv, name):
             return None
         self.n += 1
         t = {"recv": recv, "name": name, "id": "D%d" % self.n}
@@ -404,6 +442,66 @@ def k_pkg_root_twice(P, c):
     P.local("", rcase(P.rng, P.word()))
 
 
+PLAIN_DECOYS = ["bad_param", "bad_param_slice", "bad_result", "two_results", "unexported", "non_ns_method", "test_file", "tagged_out"]
+METHOD_DECOYS = ["ns_bad", "unexp_ns", "non_ns_method", "ns_bad"]
+
+
+def decoys_like(P, where, t, n=None):
+    """declarations that are not runnable names, spelled like the target t of the package `where`"""
+    rng = P.rng
+    for kind in rng.sample(PLAIN_DECOYS if not t["recv"] else METHOD_DECOYS, n or rng.choice([1, 2, 3])):
+        nm = t["name"]
+        if kind in ("bad_param", "bad_param_slice", "bad_result", "two_results"):
+            P.decoy(where, kind, "", variant(rng, nm) if len(nm) > 1 else nm + "x")
+        elif kind == "unexported":
+            P.decoy(where, kind, "", nm[0].lower() + (nm[1:] if rng.random() < 0.5 else rcase(rng, nm[1:], False)))
+        elif kind == "non_ns_method":
+            P.decoy(where, kind, "Helper%d" % rng.randrange(100), nm if rng.random() < 0.5 else rcase(rng, nm))
+        elif kind in ("test_file", "tagged_out"):
+            P.decoy(where, kind, "", nm if rng.random() < 0.5 else rcase(rng, nm))
+        elif kind == "ns_bad":
+            P.decoy(where, kind, t["recv"], variant(rng, nm) if len(nm) > 1 else nm + "x")
+        elif kind == "unexp_ns":
+            P.decoy(where, kind, t["recv"][0].lower() + t["recv"][1:], nm)
+
+
+def k_decoys(P, c):
+    """exported non-targets (and other look-alikes) spelled like a target, in the magefile package and in an imported
+    one: one runnable name per spelling, accepted; collision: a real case clash next to them"""
+    rng = P.rng
+    w = rcase(rng, P.word())
+    P.local("", w)
+    decoys_like(P, None, P.spec["locals"][-1], n=rng.choice([2, 3]))
+    ns = P.nsword()
+    if P.local(ns, rcase(rng, P.word())):
+        decoys_like(P, None, P.spec["locals"][-1])
+    a, tag = P.ialias()
+    i = P.imp(a if rng.random() < 0.6 else "", tag)
+    i["tag"] = i["alias"] and i["tag"]
+    P.itgt(i, "", rcase(rng, P.word()))
+    decoys_like(P, i, i["tgts"][-1])
+    if rng.random() < 0.5 and P.itgt(i, P.nsword(), rcase(rng, P.word())):
+        decoys_like(P, i, i["tgts"][-1])
+    if c:
+        P.local("", variant(rng, w))
+
+
+def k_decoy_across(P, c):
+    """an exported non-target of an imported package spelled like a LOCAL target or an alias key (root import / alias)"""
+    rng = P.rng
+    w = rcase(rng, P.word())
+    d = P.local("", w)
+    i = P.imp("")
+    P.itgt(i, "", rcase(rng, P.word()))
+    for kind in rng.sample(["bad_param", "bad_result", "unexported", "non_ns_method", "two_results"], 2):
+        P.decoy(i, kind, "" if kind != "non_ns_method" else "Helper", (w[0].lower() + w[1:]) if kind == "unexported" else rcase(rng, w))
+    key = rcase(rng, P.rng.choice(["ak", "k9"]), False)
+    P.alias(key, d)
+    P.decoy(None, "bad_result", "", key.capitalize() if key.capitalize() != key else key.upper())
+    if c:
+        P.itgt(i, "", rcase(rng, w))
+
+
 KINDS = [("fn_case", k_fn_case), ("method_case", k_method_case), ("namespace_case", k_namespace_case),
          ("fn_vs_method", k_fn_vs_method), ("two_imports_one_alias", k_two_imports_one_alias),
          ("same_name_two_aliases", k_same_name_two_aliases), ("root_vs_local", k_root_vs_local), ("two_roots", k_two_roots),
@@ -411,7 +509,8 @@ KINDS = [("fn_case", k_fn_case), ("method_case", k_method_case), ("namespace_cas
          ("alias_own_target", k_alias_own_target), ("import_internal_case", k_import_internal_case),
          ("alias_vs_method", k_alias_vs_method), ("import_alias_colon", k_import_alias_colon),
          ("pkg_two_aliases", k_pkg_two_aliases), ("pkg_root_and_alias", k_pkg_root_and_alias),
-         ("pkg_three_aliases", k_pkg_three_aliases), ("pkg_same_pair_twice", k_pkg_same_pair_twice)]
+         ("pkg_three_aliases", k_pkg_three_aliases), ("pkg_same_pair_twice", k_pkg_same_pair_twice),
+         ("decoys", k_decoys), ("decoy_across", k_decoy_across)]
 
 
 def fillers(P):
@@ -429,6 +528,11 @@ def fillers(P):
         i["tag"] = i["alias"] and i["tag"]
         for _ in range(rng.choice([1, 2])):
             P.itgt(i, "" if rng.random() < 0.7 else "Grp", rcase(rng, P.word()))
+    if rng.random() < 0.25:
+        where = rng.choice([None] + P.spec["imports"])
+        tg = P.spec["locals"] if where is None else where["tgts"]
+        if tg:
+            decoys_like(P, where, rng.choice(tg))
     for k in rng.sample(["zz", "f1", "al9", "k:l", "w8"], rng.choice([0, 0, 1, 2])):
         P.alias(rcase(rng, k, False), P.some_def())
 
@@ -466,7 +570,114 @@ def choose_words(P):
     spec["words"] = ws
 
 
-def generate(rng, reps, soups):
+# ---------------------------------------------------------------- histories: one directory, one cache, several states
+def _drop(spec, ident_):
+    """a copy of spec without the target whose id is ident_ (and without alias entries denoting it)"""
+    import copy
+    a = copy.deepcopy(spec)
+    a["locals"] = [t for t in a["locals"] if t["id"] != ident_]
+    for i in a["imports"]:
+        i["tgts"] = [t for t in i["tgts"] if t["id"] != ident_]
+    a["aliases"] = [x for x in a["aliases"] if x["ref"] != ident_]
+    return a
+
+
+def h_root_vs_local(P):          # the imported package gains a function spelled like a local target
+    w = P.word()
+    P.local("", rcase(P.rng, w))
+    i = P.imp("", file=0)
+    P.itgt(i, "", rcase(P.rng, P.word()))
+    return P.itgt(i, "", rcase(P.rng, w)), True
+
+
+def h_alias_vs_imported(P):      # ... spelled like an alias key alias:name of the magefile
+    a, tag = P.ialias()
+    i = P.imp(a, tag, file=0)
+    P.itgt(i, "", rcase(P.rng, P.word()))
+    w = P.word()
+    P.alias(rcase(P.rng, a + ":" + w, False), P.local("", rcase(P.rng, P.word())))
+    return P.itgt(i, "", rcase(P.rng, w)), True
+
+
+def h_two_imports_one_alias(P):  # ... spelled like a function of another package under the same alias
+    a, tag = P.ialias()
+    i, j = P.imp(a, tag, file=0), P.imp(a, file=0)
+    w = P.word()
+    P.itgt(i, "", rcase(P.rng, w))
+    P.itgt(j, "", rcase(P.rng, P.word()))
+    P.local("", rcase(P.rng, P.word()))
+    return P.itgt(j, "", rcase(P.rng, w)), True
+
+
+def h_import_internal(P):        # ... differing in case from one of its own functions
+    a, tag = P.ialias()
+    i = P.imp(P.rng.choice([a, ""]), file=0)
+    w = rcase(P.rng, P.word())
+    P.itgt(i, "", w)
+    P.local("", rcase(P.rng, P.word()))
+    return P.itgt(i, "", variant(P.rng, w)), True
+
+
+def h_local_case(P):             # the magefile gains a function differing in case from another
+    w = rcase(P.rng, P.word())
+    P.local("", w)
+    i = P.imp("", file=0)
+    P.itgt(i, "", rcase(P.rng, P.word()))
+    return P.local("", variant(P.rng, w)), True
+
+
+def h_local_vs_root(P):          # the magefile gains a function spelled like a root-imported one
+    w = P.word()
+    i = P.imp("", file=0)
+    P.itgt(i, "", rcase(P.rng, w))
+    P.local("", rcase(P.rng, P.word()))
+    return P.local("", rcase(P.rng, w)), True
+
+
+def h_decoy_import(P):           # the imported package gains a NON-target spelled like a local target: still accepted
+    w = rcase(P.rng, P.word())
+    P.local("", w)
+    i = P.imp("", file=0)
+    P.itgt(i, "", rcase(P.rng, P.word()))
+    k = P.rng.choice(["bad_param", "bad_result", "two_results", "unexported"])
+    P.decoy(i, k, "", (w[0].lower() + w[1:]) if k == "unexported" else w)
+    return None, False
+
+
+HISTORIES = [("imp:root_vs_local", h_root_vs_local), ("imp:alias_vs_imported", h_alias_vs_imported),
+             ("imp:two_imports_one_alias", h_two_imports_one_alias), ("imp:import_internal", h_import_internal),
+             ("mage:local_case", h_local_case), ("mage:local_vs_root", h_local_vs_root), ("imp:decoy", h_decoy_import)]
+
+
+def history(rng, name, hk, fn):
+    """[state, ...]: the same project before / after / before the edit (or after / before / after)"""
+    import copy
+    P = Proj(rng, name, "hist:" + hk, None)
+    ident_, collides = fn(P)
+    P.finish()
+    b = P.spec
+    if ident_ is not None:
+        a = _drop(b, ident_)
+    else:
+        a = copy.deepcopy(b)
+        a["decoys"] = []
+        for i in a["imports"]:
+            i["decoys"] = []
+    a["collide"], b["collide"] = False, collides
+    seq = [a, b, a] if rng.random() < 0.7 else [b, a, b]
+    out = []
+    for k, st in enumerate(seq):
+        st = copy.deepcopy(st)
+        P.spec = st
+        choose_words(P)
+        st["step"] = k
+        st["cmds"] = ["l", "h", "run"] + (["compiled"] if rng.random() < 0.4 else [])
+        out.append(st)
+    return out
+
+
+def generate(rng, reps, soups, hists=1):
+    """list of histories; a plain project is a history with one state"""
     specs = []
     def name():
         return "c07_%04d" % len(specs)
@@ -484,7 +695,7 @@ def generate(rng, reps, soups):
                     rng.shuffle(P.spec["locals"])
                 P.finish()
                 choose_words(P)
-                specs.append(P.spec)
+                specs.append([P.spec])
         # two collisions of different kinds in one package (which one is reported first is not compared)
         for _ in range(3):
             (k1, f1), (k2, f2) = rng.sample(KINDS, 2)
@@ -494,18 +705,21 @@ def generate(rng, reps, soups):
             f2(P, c2)
             P.finish()
             choose_words(P)
-            specs.append(P.spec)
+            specs.append([P.spec])
         P = Proj(rng, name(), "pkg_root_twice", None)
         k_pkg_root_twice(P, None)
         P.finish()
         choose_words(P)
-        specs.append(P.spec)
+        specs.append([P.spec])
+    for rep in range(hists):
+        for hk, fn in HISTORIES:
+            specs.append(history(rng, name(), hk, fn))
     for _ in range(soups):
         P = Proj(rng, name(), "soup", None)
         soup(P)
         P.finish()
         choose_words(P)
-        specs.append(P.spec)
+        specs.append([P.spec])
     return specs
 
 
@@ -514,16 +728,54 @@ def _body(t):
     return 'error { return probe.Call("%s") }' % t["id"]
 
 
-def _decls(tgts):
+DECOY_BODY = {
+    "bad_param": "func %s(x float64) error { return nil }\n",
+    "bad_param_slice": "func %s(xs []string) error { return nil }\n",
+    "bad_result": 'func %s() string { return "" }\n',
+    "two_results": "func %s() (int, error) { return 0, nil }\n",
+    "unexported": "func %s() error { return nil }\n",
+    "test_file": "func %s() error { return nil }\n",
+    "tagged_out": "func %s() error { return nil }\n",
+}
+
+
+def _decls(tgts, decoys=()):
     out = []
-    for ns in sorted(set(t["recv"] for t in tgts if t["recv"])):
+    inscope = [x for x in decoys if x["kind"] not in ("test_file", "tagged_out")]
+    nss = set(t["recv"] for t in tgts if t["recv"]) | set(x["recv"] for x in inscope if x["kind"] in ("ns_bad", "unexp_ns"))
+    for ns in sorted(nss):
         out.append("type %s mg.Namespace\n" % ns)
+    for h in sorted(set(x["recv"] for x in inscope if x["kind"] == "non_ns_method")):
+        out.append("type %s struct{}\n" % h)
     for t in tgts:
         if t["recv"]:
             out.append("func (%s) %s() %s\n" % (t["recv"], t["name"], _body(t)))
         else:
             out.append("func %s() %s\n" % (t["name"], _body(t)))
+    for x in inscope:
+        if x["kind"] == "ns_bad":
+            out.append('func (%s) %s(xs []string) string { return "" }\n' % (x["recv"], x["name"]))
+        elif x["kind"] in ("unexp_ns", "non_ns_method"):
+            out.append("func (%s) %s() error { return nil }\n" % (x["recv"], x["name"]))
+        else:
+            out.append(DECOY_BODY[x["kind"]] % x["name"])
     return "\n".join(out)
+
+
+def _needs_mg(tgts, decoys=()):
+    return any(t["recv"] for t in tgts) or any(x["kind"] in ("ns_bad", "unexp_ns") for x in decoys)
+
+
+def _side_files(pkgname, decoys, prefix, tag):
+    """the _test file and the file excluded by a build constraint of one package"""
+    files = {}
+    tf = [x for x in decoys if x["kind"] == "test_file"]
+    if tf:
+        files[prefix + "decoy_test.go"] = tag + "package %s\n\n" % pkgname + "\n".join(DECOY_BODY["test_file"] % x["name"] for x in tf)
+    to = [x for x in decoys if x["kind"] == "tagged_out"]
+    if to:
+        files[prefix + "zz_excluded.go"] = "//go:build ignore\n\npackage %s\n\n" % pkgname + "\n".join(DECOY_BODY["tagged_out"] % x["name"] for x in to)
+    return files
 
 
 def _goref(spec, ref):
@@ -555,7 +807,7 @@ def render(spec):
         if fno == 0:
             if spec["locals"]:
                 imps.append('\t"%s/probe"\n' % mod)
-            if any(t["recv"] for t in spec["locals"]):
+            if _needs_mg(spec["locals"], spec.get("decoys", ())):
                 imps.append('\t"github.com/magefile/mage/mg"\n')
             # a package named by an Aliases value needs one non-blank import in this file
             for pkg in sorted(used):
@@ -574,8 +826,9 @@ def render(spec):
         if fno == 0:
             if entries:
                 src += "var Aliases = map[string]interface{}{\n" + "".join(entries) + "}\n\n"
-            src += _decls(spec["locals"])
+            src += _decls(spec["locals"], spec.get("decoys", ()))
         files[fname] = src
+    files.update(_side_files("main", spec.get("decoys", ()), "", "//go:build mage\n\n"))
     done = set()
     for i in spec["imports"]:
         if i["pkg"] in done:
@@ -585,12 +838,13 @@ def render(spec):
         im = []
         if i["tgts"]:
             im.append('\t"%s/probe"\n' % mod)
-        if any(t["recv"] for t in i["tgts"]):
+        if _needs_mg(i["tgts"], i.get("decoys", ())):
             im.append('\t"github.com/magefile/mage/mg"\n')
         if im:
             s += "import (\n" + "".join(im) + ")\n\n"
-        s += _decls(i["tgts"])
+        s += _decls(i["tgts"], i.get("decoys", ()))
         files["imp/%s/%s.go" % (i["pkg"], i["pkg"])] = s
+        files.update(_side_files(i["pkg"], i.get("decoys", ()), "imp/%s/" % i["pkg"], ""))
     return files
 
 
